@@ -148,6 +148,23 @@ def fields_of(prog, it, rec, prefix=()):
     return out
 
 
+def fields_read(prog):
+    """names of structure members whose value is read somewhere in the program (any occurrence of the member that is not the direct target of a plain assignment)"""
+    if hasattr(prog, '_fields_read'): return prog._fields_read
+    out = set()
+    for fn in prog.all_funcs():
+        targets = set()
+        for n in walk(fn):
+            if n.get('kind') == 'BinaryOperator' and n.get('opcode') == '=':
+                t = unwrap_all(n['inner'][0])
+                if t.get('kind') == 'MemberExpr': targets.add(id(t))
+        for n in walk(fn):
+            if n.get('kind') == 'MemberExpr' and id(n) not in targets and n.get('name'):
+                out.add(n['name'])
+    prog._fields_read = out
+    return out
+
+
 def rule_constructors(chk, prog, tier):
     r = chk.rule('C20.e', 'node constructors leave no field indeterminate except the reviewed variant arms / lazily initialised parts: no output byte or branch can depend on uninitialised heap memory through a freshly built node', floor=9)
     cons = [
@@ -180,6 +197,8 @@ def rule_constructors(chk, prog, tier):
         un = ['.'.join(f) for f in allf if not any(k[:len(f)] == f for k in written)]
         allow = ALLOWED[fname]
         extra = [f for f in un if not any(f == a or (a.endswith('.') and f.startswith(a)) for a in allow)]
+        # a member that no code ever reads cannot carry indeterminate bytes into the output
+        extra = [f for f in extra if f.split('.')[-1] in fields_read(prog) or f.split('.')[0] in fields_read(prog)]
         r.instance(not extra, 'constructor:%s' % fname, '%s:%s' % (fn['_file'], fn.get('line')),
                    '%s() returns a node whose field(s) %s are indeterminate (malloc contents); they are read by later code without another write' % (fname, extra),
                    sample='%s: %d fields, %d left to creators/variants' % (fname, len(allf), len(un)))
